@@ -591,10 +591,15 @@ class LocationTable:
         with self.loc_t_lock:
             entry: LocationTableEntry | None = self.get_entry(
                 gbc_extended_header.so_pv.gn_addr)
+            is_new_entry = entry is None
             if entry is None:
                 entry = LocationTableEntry(self.mib)
                 self.loc_t[gbc_extended_header.so_pv.gn_addr] = entry
+        was_neighbour = entry.is_neighbour
         entry.update_with_gbc_packet(packet, gbc_extended_header)
+        if not is_new_entry:
+            # §10.3.11.3 NOTE: IS_NEIGHBOUR of an existing LocTE is left unchanged by a GBC packet
+            entry.is_neighbour = was_neighbour
         self.refresh_table()
 
     def get_neighbours(self) -> list[LocationTableEntry]:
